@@ -306,7 +306,16 @@ pub struct Step {
 
 /// Executes `op` from `st` on the real code and checks the transition relation.
 /// `report(class, detail)` is called for each violated clause.
-pub fn step(app: &mut SApp, nm: &Names, st: &SState, op: &SOp, cfg: &Cfg, ops_all: &[SOp], report: &mut dyn FnMut(&str, Value)) -> Step {
+pub fn step(app: &mut SApp, nm: &Names, st: &SState, op: &SOp, cfg: &Cfg, ops_all: &[SOp], report_outer: &mut dyn FnMut(&str, Value)) -> Step {
+    // any violated clause (of this property or another one) makes the hidden model and the real
+    // state inconsistent with each other: such a transition is reported (by the property the
+    // clause belongs to) but its successor state is not explored further
+    let clause_violations = std::cell::Cell::new(0u32);
+    let mut counting = |class: &str, detail: Value| {
+        clause_violations.set(clause_violations.get() + 1);
+        report_outer(class, detail)
+    };
+    let report: &mut dyn FnMut(&str, Value) = &mut counting;
     app.set_block(st.block.clone());
     *app.storage_mut() = st.storage.clone();
     let pre = &st.obs;
@@ -684,6 +693,9 @@ pub fn step(app: &mut SApp, nm: &Names, st: &SState, op: &SOp, cfg: &Cfg, ops_al
             }
         }
     }
+    if clause_violations.get() > 0 {
+        return Step { next: None, ok, tolerated_err };
+    }
     let next = SState { storage: app.storage().clone(), block: app.block_info(), hidden: h, obs: post, path };
     Step { next: Some(next), ok, tolerated_err }
 }
@@ -1017,7 +1029,8 @@ pub fn alphabet_c16() -> Vec<SOp> {
         SOp::Undelegate { d: 1, v: 1, amt: 2, denom: 0 },
         SOp::Redelegate { d: 1, src: 1, dst: 0, amt: 1 },
         SOp::Advance { secs: 30 },
-        SOp::Advance { secs: YEAR / 2 },
+        // long enough for a few tokens of stake to accrue whole tokens of reward
+        SOp::Advance { secs: 10 * YEAR },
         SOp::Slash { v: 0, pct: 50 },
         SOp::Slash { v: 1, pct: 10 },
     ]
